@@ -28,7 +28,7 @@ func c02StepPods(st v1beta1.CanaryStep, R int) int {
 	return (p*R + 99) / 100
 }
 
-func c02CheckStep(prefix string, r *v1beta1.Rollout, pre, post *v1beta1.CommonStatus, steps []v1beta1.CanaryStep, calls *vCalls, br *vBRResult, err error, hasTraffic bool, allowLastFull bool, wlReplicas int) {
+func c02CheckStep(prefix string, r *v1beta1.Rollout, pre, post *v1beta1.CommonStatus, steps []v1beta1.CanaryStep, calls *vCalls, br *vBRResult, err error, hasTraffic bool, allowLastFull bool, wlReplicas int, recheck *time.Time) {
 	n := int32(len(steps))
 	if err != nil {
 		// Reconcile returns before persisting the status when a step function fails (checked by C06): the in-memory
@@ -67,6 +67,17 @@ func c02CheckStep(prefix string, r *v1beta1.Rollout, pre, post *v1beta1.CommonSt
 		verifrt.Assert(preS == v1beta1.CanaryStepStateReady && post.CurrentStepIndex == pre.CurrentStepIndex+1 && postS == v1beta1.CanaryStepStateInit, prefix+".indexMovesOnlyFromReadyByOne")
 	}
 	if preS == postS {
+		// C07: a wait that no watch event will end comes with a wake-up in the future — the grace wait of the
+		// TrafficRouting sub-state, and a pause with a duration that has not elapsed yet
+		// (the clean-up a step without traffic runs first is stubbed here; its own wake-up comes from the grace
+		// wrapper inside the real manager, C07.grace.retryComesWithAPositiveWait)
+		cleanupPending := calls.count(stubFinalisingTrafficRouting) > 0
+		if preS == v1beta1.CanaryStepStateTrafficRouting && !cleanupPending && calls.count(stubDoTrafficRouting) > 0 {
+			verifrt.Assert(recheck != nil && recheck.After(time.Now()), "C07.step.trafficRoutingWaitHasAWakeUp")
+		}
+		if preS == v1beta1.CanaryStepStatePaused && !cleanupPending && pre.CurrentStepIndex >= 1 && pre.CurrentStepIndex <= n && steps[pre.CurrentStepIndex-1].Pause.Duration != nil {
+			verifrt.Assert(recheck != nil && recheck.After(time.Now()), "C07.step.timedPauseHasAWakeUp")
+		}
 		return
 	}
 	// C03: the TrafficRouting sub-state is skipped (upgrade done -> MetricsAnalysis) only for a partition-style step
@@ -170,7 +181,7 @@ func c02Canary(state int) {
 	// the status cursor the controller itself maintains: nextStepIndex may be anything a user can patch in
 	err := m.runCanary(c)
 	post := c.NewStatus.CanaryStatus.CommonStatus
-	c02CheckStep("C02.canary", r, &pre, &post, r.Spec.Strategy.Canary.Steps, calls, br, err, r.Spec.Strategy.HasTrafficRoutings(), true, int(c.Workload.Replicas))
+	c02CheckStep("C02.canary", r, &pre, &post, r.Spec.Strategy.Canary.Steps, calls, br, err, r.Spec.Strategy.HasTrafficRoutings(), true, int(c.Workload.Replicas), c.RecheckTime)
 	verifrt.Cover("done")
 }
 
@@ -201,7 +212,7 @@ func c02BlueGreen(state int) {
 	pre := r.Status.BlueGreenStatus.CommonStatus
 	err := m.runCanary(c)
 	post := c.NewStatus.BlueGreenStatus.CommonStatus
-	c02CheckStep("C02.bluegreen", r, &pre, &post, r.Spec.Strategy.BlueGreen.Steps, calls, br, err, r.Spec.Strategy.HasTrafficRoutings(), false, int(c.Workload.Replicas))
+	c02CheckStep("C02.bluegreen", r, &pre, &post, r.Spec.Strategy.BlueGreen.Steps, calls, br, err, r.Spec.Strategy.HasTrafficRoutings(), false, int(c.Workload.Replicas), c.RecheckTime)
 	verifrt.Cover("done")
 }
 
@@ -243,3 +254,10 @@ func VerifC02_PausedMakesNoProgress() {
 // The step index moves otherwise only on an explicit user request: the dispatch relation of C10 (rollback in batches
 // restarts at step one with the matching next-step index, plan edits and supersession are recognised as such).
 func VerifC02_Dispatch() { VerifC10_Dispatch() }
+
+// C07: the waits of the step machine that no watch event ends (traffic-routing grace wait, timed pause) always come
+// with a wake-up in the future (obligations C07.step.* of the same one-step relation).
+func VerifC07_CanaryTrafficRoutingWaitHasAWakeUp()    { c02Canary(2) }
+func VerifC07_BlueGreenTrafficRoutingWaitHasAWakeUp() { c02BlueGreen(2) }
+func VerifC07_CanaryTimedPauseHasAWakeUp()            { c02Canary(4) }
+func VerifC07_BlueGreenTimedPauseHasAWakeUp()         { c02BlueGreen(4) }
